@@ -609,8 +609,101 @@ func scepTypes() string {
 	return "challenged=" + challenged + " csr=" + csr
 }
 
+func exprString(e ast.Expr) string {
+	switch x := e.(type) {
+	case *ast.Ident:
+		return x.Name
+	case *ast.SelectorExpr:
+		return exprString(x.X) + "." + x.Sel.Name
+	}
+	return "?"
+}
+
+// storers: for every function of package authority that writes or reads the certificate /
+// revocation records, the stores it consults, in source order: the operand of each type
+// switch or type assertion, and the receiver of a direct a.db / a.adminDB method call.
+func storers() string {
+	want := []string{"storeCertificate", "storeRenewedCertificate", "storeSSHCertificate", "storeRenewedSSHCertificate",
+		"revoke", "revokeSSH", "IsRevoked", "authorizeSSHCertificate"}
+	found := map[string]string{}
+	for _, f := range parseDir("authority") {
+		for _, d := range f.Decls {
+			fd, ok := d.(*ast.FuncDecl)
+			if !ok || fd.Body == nil || fd.Recv == nil {
+				continue
+			}
+			rt := fd.Recv.List[0].Type
+			if st, ok := rt.(*ast.StarExpr); ok {
+				rt = st.X
+			}
+			if !isIdent(rt, "Authority") {
+				continue
+			}
+			name := fd.Name.Name
+			isWanted := false
+			for _, w := range want {
+				isWanted = isWanted || w == name
+			}
+			if !isWanted {
+				continue
+			}
+			var seq []string
+			add := func(x string) {
+				if n := len(seq); n == 0 || seq[n-1] != x {
+					seq = append(seq, x)
+				}
+			}
+			ast.Inspect(fd.Body, func(n ast.Node) bool {
+				switch x := n.(type) {
+				case *ast.TypeAssertExpr:
+					add(exprString(x.X))
+				case *ast.CallExpr:
+					if sel, ok := x.Fun.(*ast.SelectorExpr); ok {
+						if r := exprString(sel.X); r == "a.db" || r == "a.adminDB" {
+							add(r)
+						}
+					}
+				}
+				return true
+			})
+			found[name] = strings.Join(seq, ">")
+		}
+	}
+	var out []string
+	for _, w := range want {
+		v, ok := found[w]
+		if !ok {
+			v = "#missing"
+		}
+		out = append(out, w+"="+v)
+	}
+	return strings.Join(out, ";")
+}
+
+// adminStore: which of the record-keeping methods the nosql admin store (adminDB when
+// authority.enableAdmin is set with a local database) implements. None: the local database
+// keeps the records also then.
+func adminStore() string {
+	names := map[string]bool{"StoreCertificateChain": true, "StoreCertificate": true, "StoreRenewedCertificate": true,
+		"StoreSSHCertificate": true, "StoreRenewedSSHCertificate": true, "Revoke": true, "RevokeSSH": true,
+		"IsRevoked": true, "IsSSHRevoked": true, "GetCertificateData": true, "UseToken": true}
+	out := map[string]bool{}
+	for _, f := range parseDir("authority/admin/db/nosql") {
+		for _, d := range f.Decls {
+			if fd, ok := d.(*ast.FuncDecl); ok && fd.Recv != nil && names[fd.Name.Name] {
+				out[fd.Name.Name] = true
+			}
+		}
+	}
+	return sortedSet(out)
+}
+
 func srcOrder(fn string) string {
 	switch fn {
+	case "@storers":
+		return storers()
+	case "@adminStore":
+		return adminStore()
 	case "DoWithContext":
 		return webhookTable()
 	case "@signers":
